@@ -234,6 +234,7 @@ def run(prog, chk):
         else:
             chk.fail("R12.4", fn, "body-not-on-clone", "%s: the cloned shell does not flow into the executed body (%s)" % (what, mode))
     current_shell_stage_rule(prog, chk)
+    stage_error_containment_rule(prog, chk)
 
 
 def _sanctioned_edges(b, len_locals=()):
@@ -403,3 +404,108 @@ def _behind_not_subshell(b, bb):
                 if bb not in c.reachable_from(tsucc):
                     return True
     return False
+
+
+def stage_error_containment_rule(prog, chk):
+    """R12.6: an error raised while a pipeline stage runs in its own subshell ends that stage only. In spawn_pipeline_processes no
+    error exit (`?` / `return Err`) is reachable from the return of `execute_in_pipeline` except through the current-shell edge of
+    the flag that also decides ParentShell vs OwnedShell."""
+    from rulelib import bool_edges
+    chk.rule("R12.6", "errors of a pipeline stage that runs in its own subshell are turned into the stage's status: no error exit of "
+                      "spawn_pipeline_processes is reachable from the stage's execution except on the current-shell edge")
+    fn = "brush_core::interp::spawn_pipeline_processes"
+    b = prog.impl_body(fn)
+    if not chk.anchor("R12.6", fn, b):
+        return
+    c = cfg_of(b)
+    d = defs_of(b)
+    execs = [(bb, t) for bb, t in b.calls() if (t.best_callee() or t.callee or "").endswith("ExecuteInPipeline>::execute_in_pipeline")
+             or (t.callee or "").endswith("ExecuteInPipeline::execute_in_pipeline")]
+    if not execs:
+        chk.fail("R12.6", fn, "stage-exec-missing", "no execute_in_pipeline call found in spawn_pipeline_processes")
+        return
+    parents = [bl.idx for bl in b.blocks for s in bl.stmts if s.kind == 'a' and s.rv.kind == 'agg'
+               and s.rv.adt == "brush_core::commands::ShellForCommand" and s.rv.variant == "ParentShell" and bl.idx in c.reach]
+    owned = [bl.idx for bl in b.blocks for s in bl.stmts if s.kind == 'a' and s.rv.kind == 'agg'
+             and s.rv.adt == "brush_core::commands::ShellForCommand" and s.rv.variant == "OwnedShell" and bl.idx in c.reach]
+    flag_locals = set()
+    for bl in b.blocks:
+        t = bl.term
+        if t.kind == "switch" and t.ty == "bool" and t.discr.place is not None and t.discr.place.is_local() and bl.idx in c.reach and parents and owned:
+            f, tr = bool_edges(t)
+            if f is None:
+                continue
+            if all(p == tr or p in c.reachable_from(tr, avoid=[bl.idx]) for p in parents) and \
+                    all(o == f or o in c.reachable_from(f, avoid=[bl.idx]) for o in owned) and \
+                    not any(p == f or p in c.reachable_from(f, avoid=[bl.idx]) for p in parents):
+                work = [t.discr.place.local]
+                while work:
+                    l = work.pop()
+                    if l in flag_locals:
+                        continue
+                    flag_locals.add(l)
+                    for kind, dbb, idx, node in d.of(l):
+                        if kind == 'assign' and node.rv.kind in ('use', 'un') and node.rv.ops and node.rv.ops[0].place is not None and node.rv.ops[0].place.is_local():
+                            work.append(node.rv.ops[0].place.local)
+    # locals copied *from* the flag (e.g. `_x = copy flag; switch _x`, or `!flag`)
+    changed = True
+    negated = set()
+    while changed:
+        changed = False
+        for bl in b.blocks:
+            for st in bl.stmts:
+                if st.kind == 'a' and st.place.is_local() and st.place.local not in flag_locals and st.rv.kind in ('use', 'un') and st.rv.ops \
+                        and st.rv.ops[0].place is not None and st.rv.ops[0].place.is_local() and st.rv.ops[0].place.local in flag_locals:
+                    flag_locals.add(st.place.local)
+                    if st.rv.kind == 'un':
+                        negated.add(st.place.local)
+                    changed = True
+    ex_bb = execs[0][0]
+    removed = set()
+    for bl in b.blocks:
+        t = bl.term
+        if t.kind == "switch" and t.discr.place is not None and t.discr.place.is_local() and t.discr.place.local in flag_locals \
+                and bl.idx in c.reachable_after(ex_bb):
+            f, tr = bool_edges(t)
+            cur = f if t.discr.place.local in negated else tr      # the edge on which the stage ran in the current shell
+            removed.add((bl.idx, cur))
+    errs = set(c.error_exit_blocks())
+    for bl in b.blocks:
+        for st in bl.stmts:
+            if st.kind == 'a' and st.place.is_local() and st.place.local == 0 and st.rv.kind == 'agg' and st.rv.variant == "Err":
+                errs.add(bl.idx)
+    seen = set()
+    stack = [s for s in c.succ[ex_bb]]
+    prev = {}
+    while stack:
+        x = stack.pop()
+        if x in seen:
+            continue
+        seen.add(x)
+        for sx in c.succ[x]:
+            if (x, sx) in removed or sx in seen:
+                continue
+            # do not walk round the loop into the next stage's execution
+            if sx == ex_bb:
+                continue
+            prev[sx] = x
+            stack.append(sx)
+    # error exits that belong to *later* statements of the same iteration are legitimate only if they do not stem from the stage's
+    # result: restrict to error exits whose residual derives from the execute_in_pipeline future
+    from dataflow import forward_taint
+    tl = forward_taint(b, {execs[0][1].dest.local})
+    bad = []
+    for e in sorted(errs & seen):
+        t = b.blocks[e].term
+        ops = list(t.args) if t.kind == "call" else []
+        for st in b.blocks[e].stmts:
+            if st.kind == 'a':
+                ops += st.rv.ops
+        if any(o.place is not None and o.place.local in tl for o in ops):
+            bad.append(e)
+    if bad:
+        chk.fail("R12.6", fn, "stage-error-escapes-subshell",
+                 "an error returned by a pipeline stage is propagated out of spawn_pipeline_processes (error exit at line %s) although the stage ran in its own "
+                 "subshell: `set -u; echo \"${c}\" | cat; echo after` ends the whole script instead of failing the stage" % b.blocks[bad[0]].term.line)
+    else:
+        chk.ok("R12.6", "stage-errors-contained", "error exits fed by the stage's result are reachable only on the current-shell edge (%d flag tests after the call)" % len(removed), function=fn)
